@@ -110,6 +110,19 @@ theorem remove_is_list_remove (cfg : Cfg) (s : ISet α) (h : Inv s) (x : α) :
     (x ∉ s.toList → s.remove cfg x = .error .keyError) :=
   remove_spec cfg s h x
 
+/-- `add(x)` appends when `x` is new and changes nothing otherwise; `discard(x)` never raises -/
+theorem add_discard (cfg : Cfg) (s : ISet α) (h : Inv s) (x : α) :
+    (s.add x).toList = (if x ∈ s.toList then s.toList else s.toList ++ [x]) ∧
+      (s.discard cfg x).toList = s.toList.erase x :=
+  ⟨toList_add s h.toInvC x, (discard_spec cfg s h x).2⟩
+
+/-- `pop()` returns the last item and drops it; IndexError on an empty set -/
+theorem pop_default (cfg : Cfg) (s : ISet α) (h : Inv s) :
+    (∀ hne : s.toList ≠ [], ∃ s', s.popLast cfg = .ok (s', s.toList.getLast hne) ∧ Inv s' ∧
+        s'.toList = s.toList.dropLast) ∧
+    (s.toList = [] → s.popLast cfg = .error .indexError) :=
+  popLast_spec cfg s h
+
 /-- compaction and culling never change what the set contains (whatever the thresholds) -/
 theorem cull_is_invisible (cfg : Cfg) (s : ISet α) (h : InvC s) :
     Inv (cull cfg s) ∧ (cull cfg s).toList = s.toList :=
